@@ -95,6 +95,7 @@ type Case struct {
 	FailK int     `json:"failk"` // failstop: the writer fails at the k-th file (1-based)
 	FailM string  `json:"failm"` // once | from
 	Race  bool    `json:"race"`  // also run under the race detector with the largest number of jobs
+	Token string  `json:"token"` // structure: the token the values of Doc end in
 }
 
 const thisYear = 2026 // only used to place "recent" and "old" births well clear of the 100-year rule
@@ -303,10 +304,11 @@ func group(name string) string {
 }
 
 var nonAlnum = regexp.MustCompile(`[^a-zA-Z0-9]+`)
+var hexSpecial = regexp.MustCompile(`-(3c|3e|22|27|26)`)
 
 func cid(name string) string {
-	// the token as PageSource writes it (dash and hexadecimal value per character)
-	name = strings.Replace(name, "-3cq7-22-27-26-3e", "q7", -1)
+	// the special characters of a token as PageSource writes them (dash and hexadecimal value)
+	name = hexSpecial.ReplaceAllString(name, "")
 	return strings.Replace(nonAlnum.ReplaceAllString(name, ""), "q7", "", -1)
 }
 
@@ -427,8 +429,21 @@ func project(f *FileObs, raw []byte, job *Job) {
 		}
 		sort.Strings(f.Links)
 	}
-	if job.Taint != "" && bytes.Contains(raw, []byte(job.Taint)) {
-		f.Raw = true
+	if job.Taint != "" {
+		// the token verbatim, or one of its special characters verbatim next to its letters
+		k := strings.Index(job.Taint, "q7")
+		danger := []string{job.Taint}
+		if k > 0 {
+			danger = append(danger, job.Taint[k-1:k+2])
+		}
+		if k >= 0 && k+2 < len(job.Taint) {
+			danger = append(danger, job.Taint[k:k+3])
+		}
+		for _, d := range danger {
+			if bytes.Contains(raw, []byte(d)) {
+				f.Raw = true
+			}
+		}
 	}
 }
 
@@ -667,7 +682,10 @@ func observe(c Case) Obs {
 		add("fail", Job{Mode: "site", Texts: []string{text}, Opts: c.Opts, Jobs: c.Jobs[0], FailK: c.FailK, FailM: c.FailM}, false)
 	case "structure":
 		// Doc carries the tainted values, Twin the benign ones
-		taint := Taint
+		taint := c.Token
+		if taint == "" {
+			taint = Taint
+		}
 		add("taint", Job{Mode: "skeleton", Texts: []string{text}, Opts: c.Opts, Jobs: 1, Taint: taint}, false)
 		add("benign", Job{Mode: "skeleton", Texts: []string{Render(c.Twin)}, Opts: c.Opts, Jobs: 1}, false)
 		add("taint-extras", Job{Mode: "extras", Texts: []string{Render(c.Prior), text}, Opts: c.Opts, Jobs: 1, Taint: taint}, false)
